@@ -27,12 +27,16 @@ struct Env {
   // op: 0 requested, 1 granted, 2 released by unlock, 3 dropped by close
   virtual void lock_event(int proc, int op, int mode) = 0;
   virtual long clock(int proc) = 0;
+  virtual void process_exit(int proc, int code, const char *how) = 0;  // the code under test called exit/_exit/abort/raise(default action)
 };
 
 void reset(Env *env);              // before each run
 void process_died(int proc);       // close its descriptors, drop its locks, wake waiters
 int lock_mode_of(int proc);        // 0 none, 1 shared, 2 exclusive
 int lock_holders();                // number of processes holding the lock file in any mode
+// signals: handlers registered by a simulated process are recorded, not installed; deliver_signal runs the handler
+// of `proc` on the current task and returns true if one was registered (false = default action, the caller kills)
+bool deliver_signal(int proc, int signum);
 int pid_of(int proc);
 std::string host_of(int proc);     // "simhost:<pid>"
 
